@@ -581,6 +581,12 @@ def wfCall (env : Env) (c : Cls) : Bool := wfCallG true true env c
 /-- Well-formedness without the clauses that the two open findings (and the two readings) violate. -/
 def wfCore (env : Env) (c : Cls) : Bool := wfCallG false false env c
 
+/-- The instance's own spec class has a generated constructor (its parents may have hand-written ones). -/
+def topGenerated (env : Env) (c : Cls) : Bool :=
+  match instInfo env c with
+  | none => false
+  | some k => k.cdef.hand.isNone
+
 /-- All constructors involved are generated ones (no hand-written `__init__` in the spec class's MRO). -/
 def allGenerated (env : Env) (c : Cls) : Bool :=
   match instInfo env c with
